@@ -86,7 +86,7 @@ def box_selectors(draw, nb):
 
 @st.composite
 def cases(draw, tier="quick"):
-    spec = draw(plotgen.plot_specs(max_cells=3000 if tier == "quick" else 10000, max_fields=7,
+    spec = draw(plotgen.plot_specs(thin=True, max_cells=3000 if tier == "quick" else 10000, max_fields=7,
                                    payload_kinds=("special", "coded", "random")))
     if draw(st.integers(0, 2 ** 16)) % 4 == 1:
         # index space not starting at 0 (negative low indices are legal in AMReX, e.g. a domain centred on the origin)
